@@ -142,3 +142,148 @@ func hasFile(fsys Files, name string) bool { _, ok := fsys[name]; return ok }
 //@   ensures result == p.p.Path()
 
 var _ = fs.ValidPath
+
+// ---------------------------------------------------------------------------
+// templates.go: HTMLEscape (C24). "HTMLEscape(s) equals s with each of < > & "
+// ' replaced by its entity and nothing else changed": the result is the fold,
+// over the bytes of s, of the replacement below ("" = the byte itself).
+// bseq is an abstract byte sequence; sub(x,lo,hi) the bytes x[lo:hi] of a
+// string or byte slice; lit(x) all of them; cat concatenation.
+// ---------------------------------------------------------------------------
+
+type bseq string
+
+func cat(a, b bseq) bseq                                  { return a + b }
+func sub[T string | []byte](x T, lo, hi int) bseq         { return bseq(x[lo:hi]) }
+func lit[T string | []byte](x T) bseq                     { return bseq(x) }
+func fsplit(lo, mid, hi int) bool                         { return true }
+func bsplit[T string | []byte](x T, lo, mid, hi int) bool { return true }
+
+func specPieceHTML(s string, k int) string {
+	switch s[k] {
+	case '"':
+		return "&#34;"
+	case '\'':
+		return "&#39;"
+	case '&':
+		return "&amp;"
+	case '<':
+		return "&lt;"
+	case '>':
+		return "&gt;"
+	}
+	return ""
+}
+
+// specExtraHTML: how many bytes longer than the byte itself its replacement is.
+func specExtraHTML(s string, k int) int {
+	switch s[k] {
+	case '"', '\'', '&':
+		return 4
+	case '<', '>':
+		return 3
+	}
+	return 0
+}
+
+func EscHTML(s string, lo, hi int) bseq {
+	var b []byte
+	for k := lo; k < hi; k++ {
+		if p := specPieceHTML(s, k); p != "" {
+			b = append(b, p...)
+		} else {
+			b = append(b, s[k])
+		}
+	}
+	return bseq(b)
+}
+
+func ExtraHTML(s string, lo, hi int) int {
+	n := 0
+	for k := lo; k < hi; k++ {
+		n += specExtraHTML(s, k)
+	}
+	return n
+}
+
+//@ fold EscHTML piece specPieceHTML
+//@ sum ExtraHTML term specExtraHTML bounds 0 4
+
+// lemmaExtraGap: the extra length of a range is 0 or at least 3 (so it is never
+// the 1 that the early-exit test of HTMLEscape's second pass would need).
+func lemmaExtraGap(s string, lo, hi int) bool {
+	for i := lo; i < hi; i++ {
+	}
+	return true
+}
+
+//@ func lemmaExtraGap
+//@   props C24
+//@   ensures result
+//@   ensures 0 <= lo && lo <= hi && hi <= len(s) ==> ExtraHTML(s, lo, hi) == 0 || ExtraHTML(s, lo, hi) >= 3
+//@   loop 0
+//@     invariant 0 <= lo && lo <= hi && hi <= len(s) ==> lo <= i && i <= hi && (ExtraHTML(s, lo, i) == 0 || ExtraHTML(s, lo, i) >= 3)
+//@     split lo, i, i+1
+//@     decreases hi - i
+
+// (The buffer is len(s) plus at most 4 bytes per input byte long; the verifier's
+// model of slices stops at 2^40 elements, hence the bound on len(s).)
+//@ func HTMLEscape
+//@   props C24
+//@   requires len(s) <= 1<<37
+//@   ensures lit(string(result)) == EscHTML(s, 0, len(s))
+//@   loop 0
+//@     invariant 0 <= i && i <= len(s)
+//@     invariant n == ExtraHTML(s, 0, i) && (n == 0 || n >= 3)
+//@     invariant n == 0 ==> j == 0 && EscHTML(s, 0, i) == sub(s, 0, i)
+//@     invariant n > 0 ==> 0 <= j && j < i && ExtraHTML(s, 0, j) == 0 && EscHTML(s, 0, j) == sub(s, 0, j)
+//@     split 0, i, i+1
+//@     decreases len(s) - i
+//@   loop 1
+//@     invariant 0 <= i && i <= len(s)
+//@     invariant len(b) == len(s)+n && n == ExtraHTML(s, 0, len(s))
+//@     invariant j == i+ExtraHTML(s, 0, i)
+//@     invariant sub(b, 0, j) == EscHTML(s, 0, i)
+//@     split 0, i, i+1; 0, i, len(s); i, i+1, len(s); 0, i+1, len(s)
+//@     split 0, j, j+1; 0, j, j+4; 0, j, j+5
+//@     hint lemmaExtraGap(s, i+1, len(s))
+//@     decreases len(s) - i
+
+// "... so that HTML entity decoding of the result yields s": each byte is kept
+// (and is then not '&', the only byte entity decoding treats specially) or
+// becomes one complete character reference that stands for it
+// (https://html.spec.whatwg.org/#character-reference-state; a reference ends
+// at its ';', so the following output cannot extend it).
+func specDecodeCharRef(p string) int {
+	n := len(p)
+	if n < 4 || p[0] != '&' || p[n-1] != ';' {
+		return -1
+	}
+	if n == 4 && p[1] == 'l' && p[2] == 't' {
+		return '<'
+	}
+	if n == 4 && p[1] == 'g' && p[2] == 't' {
+		return '>'
+	}
+	if n == 5 && p[1] == 'a' && p[2] == 'm' && p[3] == 'p' {
+		return '&'
+	}
+	if n == 5 && p[1] == '#' && '0' <= p[2] && p[2] <= '9' && '0' <= p[3] && p[3] <= '9' {
+		return int(p[2]-'0')*10 + int(p[3]-'0')
+	}
+	return -1
+}
+
+func lemmaHTMLEscapeDecodes(s string, k int) bool {
+	p := specPieceHTML(s, k)
+	if p == "" {
+		c := s[k]
+		return c != '&' && c != '<' && c != '>' && c != '"' && c != '\''
+	}
+	return specDecodeCharRef(p) == int(s[k])
+}
+
+//@ func lemmaHTMLEscapeDecodes
+//@   props C24
+//@   requires 0 <= k && k < len(s)
+//@   ensures result
